@@ -74,6 +74,25 @@ def run(ctx):
             params = gen.gen_params(rng, w, n=rng.choice([1, 2, 2, 3, 3, 4]))
             pre = gen.gen_formula(rng, w, params, depth=rng.choice([1, 2]), width=3, nested_numeric=False)
             eff = gen.gen_effect(rng, w, params, n=rng.randint(1, 4))
+            if rng.random() < 0.3:
+                # mirrored effects: one predicate, one polarity, argument tuples that a swap of two parameters maps onto
+                # each other - after the renaming they must still be two effects
+                for pn, sig in w.preds.items():
+                    if len(sig) == 2:
+                        vs = [v for v, t in params if w.subtype(t, sig[0][1]) and w.subtype(t, sig[1][1])]
+                        if len(vs) >= 2:
+                            x, y = rng.sample(vs, 2)
+                            lits = [[pn, x, y], [pn, y, x]]
+                            if rng.random() < 0.4:
+                                lits = [["not", l] for l in lits]
+                            eff = eff + lits
+                            break
+            if "?o" in sx.tokens(sx.plain(pre)) + sx.tokens(sx.plain(eff)) and rng.random() < 0.3:
+                # a parameter with the name of the quantified variable: inside the forall the name means the quantified
+                # variable (shadowing), outside it the parameter.  Renaming the parameter must leave the inner one alone.
+                old = params[0][0]
+                ren = lambda t: [ren(x) for x in t] if isinstance(t, list) else ("?o" if t == old else t)
+                params, pre, eff = [("?o", params[0][1])] + params[1:], ren(pre), ren(eff)
             if gen.statically_consistent(eff):
                 acts.append({"name": f"a{i}", "params": params, "pre": pre, "eff": eff})
         if not acts:
@@ -98,6 +117,11 @@ def run(ctx):
                 overlapping = bool(set(mp.values()) & set(mp.keys()) - {k for k, v in mp.items() if k == v})
                 wit = {"domain": text, "action": an, "parameters": a["params"], "map": mp, "map_kind": kind,
                        "precondition": sx.plain(a["pre"]), "effect": sx.plain(a["eff"])}
+                quantifies_o = "forall" in sx.tokens(sx.plain(a["pre"])) + sx.tokens(sx.plain(a["eff"]))
+                if quantifies_o and any(v == "?o" and k != "?o" for k, v in mp.items()):
+                    # another parameter would take the name of the quantified variable: capture, as below
+                    ctx.count("skipped_capturing_map")
+                    continue
                 if kind.startswith("reuse-quantifier-name"):
                     # renaming a parameter to the name of a variable bound inside the body captures it: not an
                     # admissible renaming of the *action* (the property speaks of injective maps on parameters, and
